@@ -177,6 +177,7 @@ def _run_one(hname):
         cfg.update(unit.get("cfg_" + tier, {}))
         maxlen = int(d.get("maxlen", cfg.get("maxlen", 1 << 31)))
         cfg.setdefault("tmpdir", os.path.join(WORK, "tmp"))
+        cfg.setdefault("opaque_calls", unit.get("opaque_calls", []))
         os.makedirs(cfg["tmpdir"], exist_ok=True)
         ex = Executor(_PROG, mode=mode, unwind=unwind, maxlen=maxlen, cfg=cfg,
                       timeout_ms=int(cfg.get("solver_timeout_ms", 120000)))
